@@ -42,19 +42,26 @@ RangeAtoms(tag) == { [k |-> "in_range", tag |-> tag, lo |-> lo, hi |-> hi] : lo 
 SetAtoms(tag) == { [k |-> kk, tag |-> tag, set |-> S] : kk \in {"in_set", "not_in_set"}, S \in { {4}, {2, 7}, {2, 4, 10}, {1, 5, 6, 9, 12} } }
 Atoms == UNION {RangeAtoms(8) \cup SetAtoms(8) : x \in {1}} \cup SetAtoms(0) \cup { [k |-> "reveal", tag |-> t] : t \in Tags }
          \cup { [k |-> "in_range", tag |-> 3, lo |-> 11, hi |-> 12], [k |-> "in_range", tag |-> 3, lo |-> 12, hi |-> 12], [k |-> "in_range", tag |-> 3, lo |-> 10, hi |-> 11] }
-Perturbations == {"none", "challenge", "credential", "commitments", "statement", "proof", "version"}
+Perturbations == {"none", "challenge", "credential", "commitments", "statement", "proof", "proof_truncated", "version"}
 (* verifiable presentations: the same statements inside a request with a context, about an account credential (commitments on chain) or a
    web3 credential (commitments signed by the issuer, presentation linked to the holder's key by a signature over context and proofs) *)
-PresPerturbations == {"none", "context", "public_data", "credential_id", "statement", "foreign_proof", "foreign_linking"}
+PresPerturbations == {"none", "context", "public_data", "credential_id", "statement", "foreign_proof", "foreign_linking", "proof_truncated"}
+(* a presentation may carry several credentials: "mixed" is a web3 credential followed by an account credential; the holder's linking signature covers the context and
+   ALL credential proofs, so altering the account part ("other_part") breaks it.  A credential may also be presented with no statement at all (ownership only): the
+   issuer's signature over the commitments is still checked. *)
+MixedPerturbations == {"none", "context", "other_part", "other_part_removed", "public_data"}
 
 VARIABLES attrs, stmt, perturb, via
 svars == <<attrs, stmt, perturb, via>>
 SInit == /\ attrs \in SomeAttrs
-         /\ via \in {"commitments", "account_presentation", "web3_presentation"}
-         /\ stmt \in {<<a>> : a \in Atoms} \cup {<<a, b>> : a \in SetAtoms(0) \cup {[k |-> "reveal", tag |-> 0]}, b \in RangeAtoms(8)}
-         /\ perturb \in (IF via = "commitments" THEN Perturbations ELSE PresPerturbations)
-         /\ (perturb # "none" => Len(stmt) = 1)
-         /\ (via # "commitments" => (attrs[0] = 5 /\ (Len(stmt) = 2 \/ stmt[1].tag = 8 \/ stmt[1].k = "reveal")))
+         /\ via \in {"commitments", "account_presentation", "web3_presentation", "mixed_presentation"}
+         /\ stmt \in {<<a>> : a \in Atoms} \cup {<<a, b>> : a \in SetAtoms(0) \cup {[k |-> "reveal", tag |-> 0]}, b \in RangeAtoms(8)} \cup {<<>>}
+         /\ perturb \in (IF via = "commitments" THEN Perturbations ELSE IF via = "mixed_presentation" THEN MixedPerturbations ELSE PresPerturbations)
+         /\ (perturb \notin {"none", "proof_truncated"} => Len(stmt) <= 1)
+         /\ (stmt = <<>> => (via \in {"web3_presentation", "account_presentation"} /\ perturb \in {"none", "public_data", "context"}))
+         /\ ((stmt = <<>> /\ via = "account_presentation") => perturb = "none")     \* an account credential without statements carries no proof: nothing is bound
+         /\ (via = "mixed_presentation" => (Len(stmt) = 1 /\ stmt[1].k \in {"reveal", "in_set"} /\ stmt[1].tag = 8))
+         /\ (via # "commitments" => (attrs[0] = 5 /\ (Len(stmt) # 1 \/ stmt[1].tag = 8 \/ stmt[1].k = "reveal")))
 SSpec == SInit /\ [][UNCHANGED svars]_svars
 
 Truth == StmtTrue(stmt, attrs)
